@@ -69,6 +69,17 @@ def directed_cases():
     return out
 
 
+def modelled(ops):
+    """operations the allocation-trace model has (no `cop`, no `grp`, no storage-less / JSON string forms h..l)."""
+    for o in ops:
+        t = o.split(" ")
+        if t[0] in ("cop", "grp"):
+            return False
+        if t[0] in ("set", "app", "ins") and len(t[-1]) > 1 and t[-1][0] == "s" and t[-1][1] in "hijkl":
+            return False
+    return True
+
+
 def ledger_cases(ctx):
     rng = ctx.rng
     lines = []
@@ -88,8 +99,10 @@ def ledger_cases(ctx):
     # container-typed overloads with the operand inside the destination's own root (validation: real traces only)
     for ops in _value.alias_cases():
         lines.append(_value.line_of(ops))
+    for ops in _value.copy_then_write_cases():
+        lines.append(_value.line_of(ops, cmd="valled" if modelled(ops) else "valseq"))
     for ops in _value.full_merge_cases():
-        lines.append(_value.line_of(ops, cmd="valseq" if any(o.startswith("cop ") for o in ops) else "valled"))
+        lines.append(_value.line_of(ops, cmd="valled" if modelled(ops) else "valseq"))
     # operation-only traces for the comparison with the trace model
     depth = 3 if ctx.thorough else 2
     for n in range(1, depth + 1):
